@@ -560,6 +560,17 @@ func execC02(s *c02Scenario, c *ev.Ctx) {
 		}
 		return n
 	}
+	// lostOnSameNode: another pod placed on the same NodeClaim / node carries two constraints over the key; the empty
+	// intersection of their domains already turned the node's requirement into "label absent" (presence loss), which
+	// every later constraint over the key is then "compatible" with
+	lostOnSameNode := func(p *c02Pod, key string) bool {
+		for _, q := range pods {
+			if q != p && q.placed && q.where == p.where && constraintsOn(q, key) >= 2 {
+				return true
+			}
+		}
+		return false
+	}
 	// softTaintPool: a pool carries a PreferNoSchedule taint, so relaxation adds a toleration to pods that failed once
 	softTaintPool := false
 	for _, np := range s.World.Pools {
@@ -623,7 +634,7 @@ func execC02(s *c02Scenario, c *ev.Ctx) {
 			self := c02Matches(term.LabelSelector, p.pod.Namespace, p.pod)
 			if len(dp) == 0 {
 				sig := "affinity:" + shortKey(key) + ":node-without-topology-key"
-				if constraintsOn(p, key) >= 2 {
+				if constraintsOn(p, key) >= 2 || lostOnSameNode(p, key) {
 					sig = "node-without-topology-key:presence-lost"
 				}
 				c.Violate(sig, "%s has a required pod affinity over %s but its node will not carry that label", describe(p, key), key)
@@ -762,7 +773,7 @@ func execC02(s *c02Scenario, c *ev.Ctx) {
 			if len(dp) != 1 {
 				if len(dp) == 0 {
 					sig := "spread:" + shortKey(key) + ":node-without-topology-key"
-					if constraintsOn(p, key) >= 2 {
+					if constraintsOn(p, key) >= 2 || lostOnSameNode(p, key) {
 						sig = "node-without-topology-key:presence-lost"
 					}
 					c.Violate(sig, "%s carries a DoNotSchedule spread over %s but its node will not carry that label", describe(p, key), key)
